@@ -201,6 +201,11 @@ class _FuncAnalysis:
             if isinstance(f, ast.Name):
                 if f.id in SET_CTORS:
                     return f"{f.id}(...)"
+                if f.id == "sorted" and n.args and not _is_sorted_wrapped(n):
+                    # sorted(x, key=k) with a key that can tie: ties keep x's order
+                    r0 = self.unordered(n.args[0])
+                    if r0:
+                        return f"sorted with a key that can tie over: {r0}"
                 if f.id in ORDERED_CTORS:
                     return None
                 if f.id in self.mapper_vars:
@@ -468,8 +473,34 @@ def _own_nodes(fd):
 
 
 def _is_sorted_wrapped(n):
-    return isinstance(n, ast.Call) and isinstance(n.func, ast.Name) \
-        and n.func.id == "sorted"
+    """sorted(x) puts an unordered x in order; sorted(x, key=k) does so only up to
+    ties of k (the sort is stable: elements with equal keys keep the order they had
+    in x, i.e. hash order), so a key is accepted only when it obviously cannot tie"""
+    if not (isinstance(n, ast.Call) and isinstance(n.func, ast.Name)
+            and n.func.id == "sorted"):
+        return False
+    for k in n.keywords:
+        if k.arg == "key":
+            v = ast.unparse(k.value)
+            # identity-like keys and keys that name the element uniquely
+            if v in ("str", "repr", "lambda x: x", "id") or v.endswith(".name") \
+                    or v.endswith(".name)") or "attrgetter('name')" in v:
+                continue
+            # sorting the items of a mapping by their key: keys are unique
+            kv = k.value
+            if isinstance(kv, ast.Lambda) and len(kv.args.args) == 1 and n.args \
+                    and isinstance(n.args[0], ast.Call) \
+                    and isinstance(n.args[0].func, ast.Attribute) \
+                    and n.args[0].func.attr == "items" \
+                    and ast.unparse(kv.body) == f"{kv.args.args[0].arg}[0]":
+                continue
+            if v in ("itemgetter(0)", "operator.itemgetter(0)") and n.args \
+                    and isinstance(n.args[0], ast.Call) \
+                    and isinstance(n.args[0].func, ast.Attribute) \
+                    and n.args[0].func.attr == "items":
+                continue
+            return False
+    return True
 
 
 def _commutative_stmt(s) -> bool:
